@@ -1353,6 +1353,23 @@ func generateScenarios(prop string, seed uint64, n int, adv bool) []*scenario {
 				sc.Rounds[ri].MidOps[idx] = append(sc.Rounds[ri].MidOps[idx], extOp{Op: "recreate-revisions"})
 			}
 			sc.Features = append(sc.Features, "revisions-recreated-after-cache")
+			if r.Bool() {
+				// ... or, before a sync, taken over by another parent: the names the parent wants are taken by
+				// objects it does not control
+				at := r.Intn(len(sc.Rounds))
+				for ri := range sc.Rounds {
+					sc.Rounds[ri].MidOps = nil
+				}
+				if r.Bool() {
+					sc.Rounds[at].PreOps = append(sc.Rounds[at].PreOps, extOp{Op: "steal-revisions"})
+				} else {
+					sc.Rounds[at].LateOps = append(sc.Rounds[at].LateOps, extOp{Op: "steal-revisions"})
+				}
+				sc.Features = []string{"rolling", "revisions-taken-over-by-another-parent"}
+				if len(sc.Rounds[at].LateOps) > 0 {
+					sc.Features = append(sc.Features, "ownership-edit-after-cache") // the caches still show the old owner
+				}
+			}
 			out = append(out, sc)
 		case prop == "C02" && i%8 == 0:
 			sc := g.basic("basic", i, s)
